@@ -198,14 +198,17 @@ def mask_wiring(prog, an, rep):
         for n in ast.walk(g.node):
             for ch in ast.iter_child_nodes(n):
                 pm[ch] = n
+        maskers = {m.name for m, data, secret in _mask_candidates(prog, g)[1]
+                   if _mask_shape(an, m, data, secret)[0]}
         for x in walk_local(g.node, include_root=False):
             if isinstance(x, ast.Name) and x.id in ('command', 'output') \
                     and isinstance(x.ctx, ast.Load):
                 par = pm.get(x)
                 rep.evaluated()
                 okp = isinstance(par, ast.Call) and (
-                    src(par.func) in ('mask_pwd', 'subprocess.Popen',
-                                      '_do_cmd') and x in par.args)
+                    src(par.func) in maskers | {'subprocess.Popen',
+                                                '_do_cmd'} and
+                    x in par.args)
                 # mask_pwd written out: x.replace(pwd, '***') if pwd else x
                 up = par
                 for _ in range(3):
@@ -263,72 +266,107 @@ def quoting_agreement(prog, an, rep):
                   'without quoting')
 
 
+def _mask_shape(an, m, data, secret):
+    """(ok, what the function returns): every return of m is the text with
+    the secret replaced by a constant (str / bytes variants), or the text
+    itself on paths where the secret is falsy."""
+    mc = an.cfg(m)
+
+    def masks(e):
+        return isinstance(e, ast.Call) and \
+            isinstance(e.func, ast.Attribute) and \
+            e.func.attr == 'replace' and src(e.func.value) == data and \
+            len(e.args) == 2 and \
+            src(e.args[0]) in (secret, secret + '.encode()') and \
+            isinstance(e.args[1], ast.Constant)
+    no_secret = an.branch_nodes(
+        m, lambda e: isinstance(e, ast.Name) and e.id == secret, False)
+    rets = [r for r in mc.nodes.values() if r.kind == 'return']
+    ok = bool(rets)
+    shown = []
+    for r in rets:
+        v = r.ast.value
+        shown.append(src(v) if v is not None else 'None')
+        if v is not None and masks(v):
+            continue
+        if isinstance(v, ast.IfExp) and src(v.test) == secret and \
+                masks(v.body) and src(v.orelse) == data:
+            continue
+        if v is not None and src(v) == data:
+            # the text is returned unchanged only when there is no
+            # secret to mask
+            o, _ = mc.must_pass(no_secret, r.id)
+            if o and no_secret:
+                continue
+        ok = False
+    if mc.exit in mc.reachable() and any(
+            mc.nodes[p_].kind != 'return' for p_ in mc.pred[mc.exit]):
+        ok = False
+    return ok, shown
+
+
+def _mask_candidates(prog, g):
+    """(the local bound to the mask_pwd keyword, [(masking function, its
+    text parameter, the secret's name inside it)]) for cmd / _do_cmd."""
+    pvar = None
+    for n in walk_local(g.node, include_root=False):
+        if isinstance(n, ast.Assign) and len(n.targets) == 1 and \
+                isinstance(n.targets[0], ast.Name) and \
+                isinstance(n.value, ast.Call) and \
+                isinstance(n.value.func, ast.Attribute) and \
+                n.value.func.attr in ('get', 'pop') and \
+                g.node.args.kwarg is not None and \
+                src(n.value.func.value) == g.node.args.kwarg.arg and \
+                n.value.args and is_const(n.value.args[0], 'mask_pwd'):
+            pvar = n.targets[0].id
+    cands = []
+    if pvar is None:
+        return None, cands
+    for m in g.nested.values():
+        if m.params and any(isinstance(x, ast.Name) and x.id == pvar
+                            for x in ast.walk(m.node)):
+            cands.append((m, m.params[0], pvar))
+    for call in prog.calls_in(g):
+        cal = prog.callee(g, call)
+        if cal[0] != 'func' or cal[1] not in prog.funcs:
+            continue
+        m = prog.funcs[cal[1]]
+        if m.module is not g.module or m.cls is not None:
+            continue
+        pos = [i for i, a in enumerate(call.args)
+               if isinstance(a, ast.Name) and a.id == pvar]
+        pos += [m.params.index(k.arg) for k in call.keywords
+                if k.arg in m.params and isinstance(k.value, ast.Name)
+                and k.value.id == pvar]
+        if len(pos) == 1 and len(m.params) == 2 and \
+                (m, m.params[1 - pos[0]], m.params[pos[0]]) not in cands:
+            cands.append((m, m.params[1 - pos[0]], m.params[pos[0]]))
+    return pvar, cands
+
+
 def sanitiser_shape(prog, an, rep):
+    """cmd / _do_cmd hide the mask_pwd keyword in what they log and raise
+    through a masking function: a closure over the secret, a module-level
+    helper given the secret, or the idiom written out."""
     R = 'C16.REG.sanitiser'
     for q in ('bert_e.lib.simplecmd.cmd', 'bert_e.lib.simplecmd._do_cmd'):
         g = need_func(an, q)
-        m = g.nested.get('mask_pwd')
         rep.evaluated()
-        if m is None:
-            # written out at its (single) use as `x.replace(pwd, '***') if
-            # pwd else x`: same thing
-            idiom = [x for x in walk_local(g.node, include_root=False)
-                     if is_replace_if_present(x)]
-            rep.check(bool(idiom), R, q + ': mask_pwd', g.where(),
-                      'the local sanitiser mask_pwd is gone')
-            continue
-        # the secret: the local bound to the mask_pwd keyword
-        pvar = None
-        for n in walk_local(g.node, include_root=False):
-            if isinstance(n, ast.Assign) and len(n.targets) == 1 and \
-                    isinstance(n.targets[0], ast.Name) and \
-                    isinstance(n.value, ast.Call) and \
-                    isinstance(n.value.func, ast.Attribute) and \
-                    n.value.func.attr in ('get', 'pop') and \
-                    src(n.value.func.value) == g.node.args.kwarg.arg and \
-                    n.value.args and is_const(n.value.args[0], 'mask_pwd'):
-                pvar = n.targets[0].id
+        pvar, cands = _mask_candidates(prog, g)
         rep.check(pvar is not None, R, q + ': the mask comes from the '
                   'mask_pwd keyword', g.where(), 'no local is bound to '
                   'kwargs.get/pop("mask_pwd")')
-        if pvar is None or not m.params:
+        if pvar is None:
             continue
-        data = m.params[0]
-        mc = an.cfg(m)
-
-        def masks(e):
-            return isinstance(e, ast.Call) and \
-                isinstance(e.func, ast.Attribute) and \
-                e.func.attr == 'replace' and src(e.func.value) == data and \
-                len(e.args) == 2 and \
-                src(e.args[0]) in (pvar, pvar + '.encode()') and \
-                isinstance(e.args[1], ast.Constant)
-        no_secret = an.branch_nodes(
-            m, lambda e: isinstance(e, ast.Name) and e.id == pvar, False)
-        rets = [r for r in mc.nodes.values() if r.kind == 'return']
-        ok = bool(rets)
-        shown = []
-        for r in rets:
-            v = r.ast.value
-            shown.append(src(v) if v is not None else 'None')
-            if v is not None and masks(v):
-                continue
-            if isinstance(v, ast.IfExp) and src(v.test) == pvar and \
-                    masks(v.body) and src(v.orelse) == data:
-                continue
-            if v is not None and src(v) == data:
-                # the text is returned unchanged only when there is no
-                # secret to mask
-                o, _ = mc.must_pass(no_secret, r.id)
-                if o and no_secret:
-                    continue
-            ok = False
-        if mc.exit in mc.reachable() and any(
-                mc.nodes[p_].kind != 'return' for p_ in mc.pred[mc.exit]):
-            ok = False
-        rep.check(ok, R, q + ': mask_pwd replaces the password by ***',
-                  m.where(), 'mask_pwd no longer masks on every path: '
-                  'returns %s' % shown)
+        idiom = [x for x in walk_local(g.node, include_root=False)
+                 if is_replace_if_present(x)]
+        rep.check(bool(cands) or bool(idiom), R, q + ': mask_pwd',
+                  g.where(), 'the local sanitiser mask_pwd is gone')
+        for m, data, secret in cands:
+            ok, shown = _mask_shape(an, m, data, secret)
+            rep.check(ok, R, q + ': mask_pwd replaces the password by ***',
+                      m.where(), '%s no longer masks on every path: '
+                      'returns %s' % (m.name, shown))
 
 
 def job_report(prog, an, rep):
